@@ -669,6 +669,114 @@ def _pass_plain_locals(fn) -> bool:
     return changed
 
 
+def _pass_adjacent_temp(fn) -> bool:
+    """explaining local used once, in the very next statement: `e = E(); f(e)` -> `f(E())`.
+    Only when the local is stored once and loaded once in the whole function, the use sits in the header of a
+    simple statement / an `if` test / a `return`, and nothing effectful of that statement is evaluated before it."""
+    params = {a.arg for a in fn.args.posonlyargs + fn.args.args + fn.args.kwonlyargs}
+    if fn.args.vararg:
+        params.add(fn.args.vararg.arg)
+    if fn.args.kwarg:
+        params.add(fn.args.kwarg.arg)
+    stores: Dict[str, int] = {}
+    loads: Dict[str, int] = {}
+    for n in ast.walk(fn):
+        if isinstance(n, ast.Name):
+            if isinstance(n.ctx, ast.Load):
+                loads[n.id] = loads.get(n.id, 0) + 1
+            else:
+                stores[n.id] = stores.get(n.id, 0) + 1
+        elif isinstance(n, ast.ExceptHandler) and n.name:
+            stores[n.name] = stores.get(n.name, 0) + 1
+    changed = False
+    for node in ast.walk(fn):
+        for fld in ("body", "orelse", "finalbody"):
+            b = getattr(node, fld, None)
+            if not (isinstance(b, list) and len(b) >= 2 and isinstance(b[0], ast.stmt)):
+                continue
+            i = 0
+            while i < len(b) - 1:
+                st, nxt = b[i], b[i + 1]
+                i += 1
+                if not (isinstance(st, ast.Assign) and len(st.targets) == 1 and isinstance(st.targets[0], ast.Name)):
+                    continue
+                name = st.targets[0].id
+                if name in params or stores.get(name) != 1 or loads.get(name) != 1:
+                    continue
+                v = st.value
+                if any(isinstance(x, (ast.Await, ast.Yield, ast.YieldFrom, ast.NamedExpr, ast.Lambda, ast.ListComp, ast.GeneratorExp, ast.SetComp, ast.DictComp)) for x in ast.walk(v)):
+                    continue
+                if isinstance(nxt, (ast.Expr, ast.Return, ast.Raise)):
+                    hdr = "value" if not isinstance(nxt, ast.Raise) else "exc"
+                elif isinstance(nxt, (ast.Assign, ast.AugAssign, ast.AnnAssign)):
+                    hdr = "value"
+                elif isinstance(nxt, ast.If):
+                    hdr = "test"
+                else:
+                    continue
+                e = getattr(nxt, hdr, None)
+                if e is None:
+                    continue
+                uses = [x for x in ast.walk(e) if isinstance(x, ast.Name) and x.id == name and isinstance(x.ctx, ast.Load)]
+                if len(uses) != 1:
+                    continue
+                # not under a lambda / comprehension / short-circuit operand / conditional expression branch
+                pm = {c: p_ for p_ in ast.walk(e) for c in ast.iter_child_nodes(p_)}
+                x = uses[0]
+                okpos = True
+                while x in pm:
+                    par = pm[x]
+                    if isinstance(par, (ast.Lambda, ast.ListComp, ast.GeneratorExp, ast.SetComp, ast.DictComp)):
+                        okpos = False
+                    if isinstance(par, ast.BoolOp) and par.values[0] is not x:
+                        okpos = False
+                    if isinstance(par, ast.IfExp) and par.test is not x:
+                        okpos = False
+                    x = par
+                if not okpos:
+                    continue
+                new_e = _replace_node(copy.deepcopy(e) if False else e, uses[0], copy.deepcopy(v))
+                has_call = any(isinstance(y, ast.Call) for y in ast.walk(v))
+                if has_call:
+                    first = _first_eval_call(new_e)
+                    inside = first is not None and any(first is y for y in ast.walk(new_e) if True) and _within(first, new_e, v)
+                    if not inside:
+                        # restore and skip
+                        setattr(nxt, hdr, _replace_by_structure(new_e, v, uses[0]))
+                        continue
+                setattr(nxt, hdr, new_e)
+                del b[i - 1]
+                i -= 1
+                stores[name] = 0
+                loads[name] = 0
+                changed = True
+    return changed
+
+
+def _within(node: ast.AST, root: ast.AST, value_template: ast.AST) -> bool:
+    """``node`` lies inside the (copied) value expression that was substituted into ``root``: compared by structure"""
+    dump_v = ast.dump(value_template)
+    for y in ast.walk(root):
+        if ast.dump(y) == dump_v and any(node is z for z in ast.walk(y)):
+            return True
+    return False
+
+
+def _replace_by_structure(root: ast.AST, value_template: ast.AST, name_node: ast.Name) -> ast.AST:
+    dump_v = ast.dump(value_template)
+
+    class T(ast.NodeTransformer):
+        done = False
+
+        def visit(self, node):
+            if not T.done and ast.dump(node) == dump_v:
+                T.done = True
+                return name_node
+            return super().visit(node)
+
+    return T().visit(root)
+
+
 def _pass_positional(fn, mod: "_Module", cls: Optional[ast.ClassDef]) -> bool:
     """`self.m(b=y, a=x)` / `f(a=x)` for a function defined in the same class / module becomes the positional
     call `self.m(x, y)` (argument values are evaluated in the same order only when that order is unchanged; values
@@ -910,6 +1018,7 @@ def inline_tree(tree: ast.Module, keep: Iterable[str]) -> ast.Module:
             _pass_positional(fn, mod, cls)
             _pass_split_swaps(fn)
             _pass_alias(fn, cls)
+            _pass_adjacent_temp(fn)
         except RecursionError:
             pass
     # a helper whose every call was inlined is no longer part of the program the rules look at
